@@ -25,7 +25,7 @@ ROOT = "/tmp/mut"
 CHECKS = {
     "eventlist.py": ["C01", "C07", "C02"],
     "simevent.py": ["C01", "C07", "C05", "C02"],
-    "simulator.py": ["C06", "C07", "C11", "C04", "C05", "C02", "C03"],
+    "simulator.py": ["C06", "C07", "C04", "C03", "C05"],
     "pubsub.py": ["C08", "C07", "C11"],
     "statistics.py": ["C09", "C10", "C11", "C06"],
     "streams.py": ["C13", "C12", "C07", "C14"],
